@@ -211,10 +211,33 @@ PROPS["C07"] = dict(
                 "error cases, copy_fields + split_fields per-field equality.",
     limit_quick=60)
 
+PROPS["C15"] = dict(
+    level="other", needs_ext=True,
+    technique="contract-based deductive verification of frame conditions (every write statement of the Python and C functions under "
+              "contract targets memory that is fresh in the call or listed in `modifies`; explicit input-untouched postconditions), "
+              "own VC generator + z3; C++ callees read-only by assumption with a labelled bounded before/after sweep",
+    level_text="Collected frame conditions of every contract tagged C15: match / unique / rem_dup, the byte-order converters with "
+               "inplace off (independent copy on every branch, input bytes and declared order untouched), Recfile.write (the table "
+               "handed to a text or binary record file is never written through - the native-order conversion happens on a copy), "
+               "the field operations (new arrays, sources untouched), the histogram engines (only hist/rev are written) and "
+               "Binner.calc_stats / _hist_by_num / _get_minmax_and_indices, wmom / wmedian / interplin / cov2cor / cor2cov, the C "
+               "cosmology core, its 26 wrappers and the Python dispatchers (array arguments only read), QGauss.integrate_data. "
+               "Coordinates, WCS and HTM entry points, and all of the above for byte-swapped / strided / float32 / integer / 0-d / 2-d "
+               "inputs, are covered by the bounded before/after sweep.",
+    level_note="Trusted: esvc, z3, clang; aliasing rules of numpy (views, field access and atleast_1d share the buffer; astype, copy, "
+               "np.array(copy=True), fancy indexing and arithmetic results are fresh) are assumed; the C++ callees Records::Write and "
+               "HTMC/Matcher methods are assumed read-only (bounded check only); esutil.coords, esutil.wcsutil and esutil.htm have no "
+               "proved frame contracts yet (bounded sweep only) - this is why the level is 'other'.",
+    explanation="Mixed: proved = frame obligations and input-untouched postconditions of the contracts tagged C15 (several hundred "
+                "obligations across 9 spec files); bounded = ~700 (quick) calls over the public entry points of every family in the "
+                "statement with native / byte-swapped / float32 / integer / strided / column / 0-d / 2-d arguments, comparing base-buffer "
+                "bytes, dtype, shape, strides and flags before and after (also when the call raises).",
+    limit_quick=120)
+
 for _k in range(1, 21):
     PROPS.setdefault("C%02d" % _k, dict(level="other", needs_ext=True, explanation="see DESIGN.md section 8"))
 
 
-CLAIMED = {"C20", "C02", "C05", "C06", "C16", "C18", "C11", "C14", "C17", "C07"}
+CLAIMED = {"C20", "C02", "C05", "C06", "C16", "C18", "C11", "C14", "C17", "C07", "C15"}
 NOT_APPLICABLE = {("C%02d" % k): "check not built yet (implementation in progress; plan in DESIGN.md section 8)"
                   for k in range(1, 21) if ("C%02d" % k) not in CLAIMED}
